@@ -58,6 +58,7 @@ def build(src):
         Rule("D7.string-index", r"\b(name_|arg_)\[([012])\]", r"OSTR_AT\2(\1)"),
         Rule("D7.string-eq-dd", r"\barg_\s*==\s*\"--\"", "(arg_.id == OSTR_ID_DD)"),
         Rule("D7.string-size", r"\b(name_|arg_)\.size\(\)", r"\1.len"),
+        Rule("D7.string-empty", r"\b(name_|arg_)\.empty\(\)", r"(\1.len == 0)"),
         Rule("D7.optional-bool", r"static_cast<bool>\(value_\)", "self->value_has"),
         Rule("D7.optional-bool", r"(?<=[(!\s])value_(?=\s*(?:\?|\)|&&|\|\|))", "self->value_has"),      # optional contextually converted to bool
         Rule("D7.optional-deref", r"\*value_\b", "value_"),
@@ -129,7 +130,7 @@ def build(src):
                    Rule("D7.string-size", r"\barg\.(name|value|data)\(\)\.size\(\)", r"ui_\1(arg)->len"),
                    Rule("D6.named-eq", r"\barg\.as_named\(\)\s*==\s*base_name\(self\)", "ostr_eq_v(ui_as_named(arg), *base_name(self))")] ,
             pre=[Rule("D2.auto", r"\bauto\b", "__auto_type")] + arg_calls + base_calls,
-            must_fire=["D3.multiset-local|D3.multiset-temporary", "D7.multiset-count|D3.multiset-temporary", "D6.named-eq"]))
+            must_fire=["D3.multiset-local|D3.multiset-temporary", "D7.multiset-count|D3.multiset-temporary", "D6.named-eq"], extra_replace=["ui_as_short_list"]))
     # toggle
     st = "struct otoggle *self"
     cst = "const struct otoggle *self"
@@ -175,7 +176,7 @@ def build(src):
           Rule("D3.members", r"(?<![\w.>])(is_optional_)\b", r"self->\1")]
     u.add(F("option_update_value", OPT, r"void option::update_value\(const user_input& arg\)", "void option_update_value(%s, const struct user_input *arg)" % so, P2, pre=arg_calls, rules=OB))
     u.add(F("option_prepare", OPT, r"void option::prepare\(\)", "void option_prepare(%s)" % so, ["C14"], rules=OB))
-    u.add(F("option_check", OPT, r"void option::check\(\)", "void option_check(%s)" % so, ["C03", "C04", "C14"], pre=[Rule("D2.auto", r"\bauto\b", "struct ostr")] + arg_calls, rules=OB, must_fire=["D7.env-get"]))
+    u.add(F("option_check", OPT, r"void option::check\(\)", "void option_check(%s)" % so, ["C03", "C04", "C14", "C02"], pre=[Rule("D2.auto", r"\bauto\b", "struct ostr")] + arg_calls, rules=OB, must_fire=["D7.env-get"]))
     u.add(F("option_get", OPT, r"const std::string& option::get\(\) const", "const struct ostr *option_get(const struct ooption *self)", ["C02"], dflt="0", ret_ref=True, rules=[Rule("D7.optional-deref", r"\*value_\b", "self->value_")]))
     # multi_option
     sm = "struct omulti *self"
@@ -196,7 +197,7 @@ def build(src):
           Rule("D3.members", r"(?<![\w.>])(is_optional_)\b", r"self->\1")]
     u.add(F("multi_update_value", MOPT, r"void multi_option::update_value\(const user_input& arg\)", "void multi_update_value(%s, const struct user_input *arg)" % sm, P2, pre=arg_calls, rules=MB, must_fire=["D7.vector-push"]))
     u.add(F("multi_prepare", MOPT, r"void multi_option::prepare\(\)", "void multi_prepare(%s)" % sm, ["C14"], rules=MB))
-    u.add(F("multi_check", MOPT, r"void multi_option::check\(\)", "void multi_check(%s)" % sm, ["C03", "C04", "C14"], pre=[Rule("D2.auto", r"\bauto\b", "struct ostr")], rules=MB, must_fire=["D7.env-get", "D7.getline"]))
+    u.add(F("multi_check", MOPT, r"void multi_option::check\(\)", "void multi_check(%s)" % sm, ["C03", "C04", "C14", "C02"], pre=[Rule("D2.auto", r"\bauto\b", "struct ostr")], rules=MB, must_fire=["D7.env-get", "D7.getline"]))
     u.add(F("multi_count", MOPT, r"std::size_t multi_option::count\(\) const", "size_t multi_count(const struct omulti *self)", ["C02"], dflt="0", rules=MB))
     u.static_facts.append("toggle::parse_env_value compares against %d string literals; %d of them are outside the documented vocabulary: %r" % (0, 0, []))
     u._unknown_words = unknown_words
@@ -377,8 +378,8 @@ def build(src):
             dflt="STEP_RAISED", rules=parse_rules, unwind=K + 1, no_replace=common_kw["no_replace"] + ["ui_data"]))
     u.functions[-1].post = [Split("step")]
     u.functions[-1].timeout = 1500
-    u.functions[-1].cases = [("positional_or_dd", {"tpo_option": "nomatch", "tpo_multi": "nomatch"}), ("option", {"tpo_multi": "nomatch"}), ("multi_option", {"tpo_option": "nomatch"}),
-                             ("toggle_or_unknown", {"tpo_option": "nomatch", "tpo_multi": "nomatch"})]
+    u.functions[-1].cases = [("positional_or_dd", {"tpo_option": "nomatch", "tpo_multi": "nomatch"}, ["C01", "C02", "C04", "C12"]), ("option", {"tpo_multi": "nomatch"}, ["C01", "C02", "C04"]),
+                             ("multi_option", {"tpo_option": "nomatch"}, ["C01", "C02", "C04"]), ("toggle_or_unknown", {"tpo_option": "nomatch", "tpo_multi": "nomatch"}, ["C01", "C02", "C04", "C11"])]
     for f_ in u.functions:
         if f_.name in ("tpo_option", "tpo_multi"):
             f_.alt_contracts = ["nomatch"]
@@ -482,6 +483,32 @@ def build(src):
                    Rule("D7.stream-setw", r"\bs << std::setw\(0\);", "os_setw(s, 0);")],
             must_fire=["D7.stream-tellp", "D7.stream-setw", "D10.range-for-temporary", "D6.replace-tabs", "D7.stream-put"]))
     u.stubs += ["lang_split_blank", "owords_at"]
+    u.add(F("group_empty", GRP, r"bool group::empty\(\) const", "nbool group_empty(const struct ogroup *self)", ["C15"], dflt="0",
+            rules=[Rule("D7.map-empty", r"\b(options_|multi_options_|toggles_)\.empty\(\)", r"omapk_empty(&self->\1)")], must_fire=["D7.map-empty"]))
+    u.add(F("group_usage", GRP, r"void group::usage\(std::ostream& s\) const", "void group_usage(const struct ogroup *self, struct ousage_stream *s)", ["C15"],
+            rules=[Rule("D6.member-call", r"(?<![\w.>:])empty\(\)", "group_empty(self)"),
+                   Rule("D7.stream-header", r"\bs << std::endl;", "ous_header(s);"),
+                   Rule("D7.stream-header", r"\bs << name_ << \":\" << std::endl;", "ous_header(s);"),
+                   Rule("D7.stream-header", r"\bs << std::endl << description_ << std::endl << std::endl;", "ous_header(s);"),
+                   Rule("D7.string-empty", r"!description_\.empty\(\)", "nondet_nbool()"),
+                   Rule("D10.vector-loop", r"for \((?:auto|__auto_type)& option : order_\)\s*option->format\(s\);",
+                        "for (size_t i_ = 0; i_ < self->order_.count; ++i_)\n        { base_format(oorder_at(&self->order_, i_), s); }")],
+            must_fire=["D6.member-call", "D10.vector-loop", "D7.stream-header"]))
+    u.stubs += ["oorder_at", "base_format"]
     u.trusted += ["std::ostream is modelled by its formatting state (width), its column and a monitor of the property (ostream_m): operator<<(char), operator<<(string), setw, endl, tellp as the standard says; "
                   "lang::split(in, \" \") (C17, string unit) yields the words in order; replace_all(word, TAB, blank) keeps length and order (C17)"]
+    # ---- which property each function's obligations are evidence for (a function is re-verified only under the properties whose
+    # statement its contract carries; C01/C02/C04 are about the whole chain)
+    CHAIN = ["C01", "C02", "C04"]
+    PROPS = {
+        "base_has_short_name": CHAIN + ["C11"], "base_has_env": ["C03", "C04", "C11"], "base_has_non_default": ["C03", "C04"], "base_short_name": CHAIN + ["C11"],
+        "base_name": CHAIN + ["C11"], "base_env": ["C03", "C04", "C11"], "base_matches": CHAIN + ["C11"], "toggle_given": ["C11"], "toggle_update_value": CHAIN + ["C11"],
+        "toggle_check": ["C03", "C04", "C11"], "toggle_matches": CHAIN + ["C11"], "option_update_value": CHAIN, "option_check": ["C02", "C03", "C04"], "multi_update_value": CHAIN,
+        "multi_check": ["C02", "C03", "C04"], "tpo_option": CHAIN, "tpo_multi": CHAIN, "try_parse_as_toggle": CHAIN + ["C11"], "parser_prepare_options": ["C14"],
+        "parser_validate_options": ["C02", "C03", "C04"], "parser_check_consistency": ["C13", "C04"], "parser_parse_prologue": CHAIN + ["C13", "C14"],
+        "parser_parse_step": CHAIN + ["C11", "C12"], "parser_parse_epilogue": ["C02", "C03", "C04", "C12"], "parser_parse_argv": ["C04", "C12"],
+    }
+    for f_ in u.functions:
+        if f_.name in PROPS:
+            f_.props = list(PROPS[f_.name])
     return u
